@@ -12,6 +12,7 @@ Record case2 := {
   d_sigs : nat;                 (* Signal calls made by the driver *)
   d_tmo : option Z;             (* the DAG timeout, us *)
   d_hon : list bool;            (* exit, success, failure, cancel configured *)
+  d_hsf : list bool;            (* ... and the set-up of that handler's node fails (stdout into a missing directory) *)
   d_ivl : list Z;
   d_rivl : list Z;
   d_trace : list event2;
@@ -26,9 +27,9 @@ Definition eps2 : Z := 200%Z.
 
 Definition hidx (h : handler) : nat := match h with HExit => 0 | HSuccess => 1 | HFailure => 2 | HCancel => 3 end.
 Definition case2_cfg (x : case2) : cfg :=
-  mkcfgx (d_steps x) (d_k x) (d_dry x) (d_done x) (d_sigs x)
+  mkcfgy (d_steps x) (d_k x) (d_dry x) (d_done x) (d_sigs x)
          (match d_tmo x with Some _ => true | None => false end)
-         (fun h => nth (hidx h) (d_hon x) false).
+         (fun h => nth (hidx h) (d_hon x) false) (fun h => nth (hidx h) (d_hsf x) false).
 
 Definition replay2_case (x : case2) : nat * nat * nat :=
   replay2 (case2_cfg x) (fun i => nth i (d_ivl x) 0%Z) (fun i => nth i (d_rivl x) 0%Z) eps2
@@ -45,6 +46,8 @@ Definition sp2 (i : nat) : stepdef := nth i (d_steps x) dflt_step.
 Definition nn2 : nat := length (d_steps x).
 Definition fst2 (i : nat) : nat := fst (nth i (d_final x) (0, 0)).
 Definition honb (h : handler) : bool := nth (hidx h) (d_hon x) false.
+(* configured and its set-up works: the handlers that can be started *)
+Definition hrunb (h : handler) : bool := honb h && negb (nth (hidx h) (d_hsf x) false).
 
 Definition is_step_event (e : event2) : bool :=
   match e with E2Start _ _ | E2End _ _ _ | E2Refused _ _ => true | _ => false end.
@@ -109,7 +112,7 @@ Definition finished_ran_ok : bool :=
                                match last_end i (d_trace x) None with Some true => true | _ => false end) (seq 0 nn2).
 Definition mon2_C04 : bool :=
   no_step_after_handler false (d_trace x) && run_error_ok && finished_ran_ok
-  && existsb (fun s => handlers_eqb (hstarted (d_trace x)) (filter honb (handler_for_status s ++ [HExit]))
+  && existsb (fun s => handlers_eqb (hstarted (d_trace x)) (filter hrunb (handler_for_status s ++ [HExit]))
                        && consistent_outcome s) [4; 2; 3].
 
 (* C05 (event order): inside every Signal call, every non-repeating step whose Run is open when the call is made and
